@@ -217,7 +217,7 @@ class TransformedPdf(Contract):
         cx.oblige("frame.pdf", not self.obj.writes and self.x.buf.writes == 0, "frame")
 
 
-@contract(TM + ".draw_sample", ["C16", "C03"], [dict(rs=r) for r in ("none", "seed")] + [dict(rs="seed", cache="filled")], name="transformed.draw_sample")
+@contract(TM + ".draw_sample", ["C16", "C03", "C07"], [dict(rs=r) for r in ("none", "seed")] + [dict(rs="seed", cache="filled")], name="transformed.draw_sample")
 class TransformedDraw(Contract):
     """samples are the inverse-transformed samples of the base model; with the model's random_state set the base
     draw is seeded by it (so that everything derived from it is reproducible)"""
